@@ -213,7 +213,7 @@ def gen_exchanges(tape, phase, n, faults_on, same_pool):
     return exs
 
 
-def run_phase(tape, r, sandbox, phase, params, exs, url_table, timeout=60.0):
+def run_phase(tape, r, sandbox, phase, params, exs, url_table, timeout=60.0, io_fault=None, kill_at_end=False):
     h = H()
     h.by_path = {}
     for ex in exs:
@@ -289,6 +289,8 @@ def run_phase(tape, r, sandbox, phase, params, exs, url_table, timeout=60.0):
                     raise
                 except Exception as e:
                     out['error'] = 'OTHER:' + type(e).__name__ + ':' + repr(e)[:200]
+                    if isinstance(e, OSError) and io_fault is not None:
+                        ex['io_failed'] = True
                 ex['outcomes'] = ex.get('outcomes', []) + [out]
                 r.log('phase %d %s %s -> %s' % (phase, ex['method'], ex['path'], out))
 
@@ -315,6 +317,10 @@ def run_phase(tape, r, sandbox, phase, params, exs, url_table, timeout=60.0):
                         r.log('phase %d ftp %s %s ok' % (phase, kind, path))
                     except (NetworkError, ProtocolError, ServerError) as e:
                         r.log('phase %d ftp %s %s -> %s' % (phase, kind, path, type(e).__name__))
+                    except OSError as e:
+                        if io_fault is None:
+                            raise
+                        r.log('phase %d ftp %s %s -> injected %s' % (phase, kind, path, type(e).__name__))
                     yield from asyncio.sleep(0.001)
 
             @asyncio.coroutine
@@ -324,6 +330,26 @@ def run_phase(tape, r, sandbox, phase, params, exs, url_table, timeout=60.0):
                     jobs.append(ftp_fetcher())
                 yield from asyncio.gather(*jobs)
 
+            fsx = None
+            if io_fault is not None:
+                # ONE I/O error at the n-th file operation on an archive or journal file (not the CDX file); the program
+                # keeps recording afterwards. Everything the recorder leaves behind must still be a valid archive.
+                from simlib import fs as simfs
+                fsx = simfs.SimFS(sandbox)
+                left = [io_fault['nth']]
+
+                def obs(k, kind, path, data):
+                    name = os.path.basename(path)
+                    if name.endswith('.cdx') or fsx.fired or left[0] < 0 or kind == 'unlink':      # (a journal whose unlink fails cannot but remain)
+                        return
+                    if left[0] == 0:
+                        if kind == 'write' and io_fault['kind'] == 'torn-error' and data:
+                            fsx.plan[k] = ('torn-error', max(1, len(data) // 2), io_fault['errno'])
+                        else:
+                            fsx.plan[k] = ('error', io_fault['errno'])
+                    left[0] -= 1
+                fsx.observer = obs
+                fsx.__enter__()
             try:
                 env.run(main())
             except SimDeadlock as e:
@@ -331,10 +357,27 @@ def run_phase(tape, r, sandbox, phase, params, exs, url_table, timeout=60.0):
             except SimBudgetExceeded as e:
                 r.violate('C04', 'hang', 'budget', str(e))
             finally:
+                if fsx is not None:
+                    fsx.__exit__(None, None, None)
+                    info['io_fault_fired'] = [(k, kind, name.replace('out', 'OUT'), act[0]) for k, kind, name, act in fsx.fired]
+                    if fsx.fired:
+                        r.probes['io_error_then_more_records'] += 1
+                        r.faults['io_error.%s' % fsx.fired[0][1]] += 1
+                if kill_at_end:
+                    # the process dies at a quiet moment (no exchange in flight, nothing being appended): what is on disk
+                    # now is all the next run finds. The recorder object is abandoned without close().
+                    from simlib import fs as simfs
+                    info['killed'] = True
+                    info['snapshot'] = simfs.snapshot_dir(sandbox)
+                    r.probes['killed_between_phases'] += 1
+                    r.faults['kill_at_quiet_moment'] += 1
                 try:
                     recorder.close()
                 except Exception as e:
-                    r.violate('C05', 'recorder-close-failed', type(e).__name__, repr(e)[:300])
+                    if not (fsx is not None and fsx.fired) and not kill_at_end:
+                        r.violate('C05', 'recorder-close-failed', type(e).__name__, repr(e)[:300])
+                if kill_at_end:
+                    simfs.restore_dir(sandbox, info.pop('snapshot'))
                 root = logging.getLogger()
                 for hd in list(root.handlers):
                     root.removeHandler(hd)
@@ -460,8 +503,11 @@ def run(tape, prop, tier):
         same_pool = {} if nphase == 2 and tape.chance(2, 3, 'dedup') else None
         url_table = None
         all_ex = []
+        killed_prev = False
         for ph in range(nphase):
             params = draw_params(tape, ph, prev)
+            if killed_prev:
+                params['appending'] = True         # the rerun after a kill continues the same archive
             n = tape.between(1, 6 if tier == 'thorough' else 5, 'nex')
             exs = gen_exchanges(tape, ph, n, faults_on, same_pool)
             if ph == 1 and same_pool is not None:
@@ -482,7 +528,14 @@ def run(tape, prop, tier):
                     # --warc-max-size; remove the earlier archives but KEEP the .cdx: a non-appending run must start it afresh
                     if not name.endswith('.cdx'):
                         os.unlink(os.path.join(sandbox, name))
-            info = run_phase(tape, r, sandbox, ph, params, exs, url_table if ph == 1 else None)
+            io_fault = None
+            if faults_on and tape.chance(1, 6, 'io_fault'):
+                io_fault = {'nth': tape.draw(40, 'io_fault.nth'), 'kind': tape.choice(('torn-error', 'error'), 'io_fault.kind'),
+                            'errno': tape.choice((28, 5), 'io_fault.errno')}
+            # (a kill between the phases only makes sense when the second phase appends to what the first left behind)
+            kill_at_end = ph == 0 and nphase == 2 and tape.chance(1, 4, 'kill_between_phases')
+            info = run_phase(tape, r, sandbox, ph, params, exs, url_table if ph == 1 else None, io_fault=io_fault, kill_at_end=kill_at_end)
+            killed_prev = kill_at_end
             phases.append({'params': params, 'n': n, 'info': info})
             all_ex.extend(exs)
             prev = params
@@ -591,17 +644,27 @@ def judge_c04(r, all_ex, records, phases):
         nok = sum(1 for o in outcomes if o.get('ok'))
         resp = ex0['resp']
         shape = '%s/%s/%s' % (ex0['method'], resp.status, resp.framing)
+        io_failed = any(e.get('io_failed') for e in exs)
+        if io_failed:
+            r.probes['exchange_failed_by_io_error'] += 1
         # ---- request records
-        if len(reqs) != len(req_bytes):
+        if len(reqs) != len(req_bytes) and not io_failed:
             if not (len(reqs) <= len(outcomes) and len(req_bytes) < len(reqs)):
                 r.violate('C04', 'request-record-count', shape, '%s: server received %d complete request(s), archive has %d request record(s)'
                           % (uri, len(req_bytes), len(reqs)))
         for rec, rb in zip(reqs, req_bytes):
+            if io_failed:
+                # an exchange that died of the injected I/O error left no request record: records and requests are not
+                # aligned one to one, but every record still is one of the requests
+                if rec.block not in req_bytes:
+                    r.violate('C04', 'request-block', shape + ':after-io-error', '%s: request record block (%d bytes) is none of the %d requests the server received'
+                              % (uri, len(rec.block), len(req_bytes)))
+                continue
             if rec.block != rb:
                 r.violate('C04', 'request-block', shape, '%s: request record block (%d bytes) differs from the bytes the server received (%d bytes); first diff at %d'
                           % (uri, len(rec.block), len(rb), _first_diff(rec.block, rb)))
         # ---- response records
-        if len(resps) != nok:
+        if len(resps) != nok and not io_failed:
             r.violate('C04', 'response-record-count', shape, '%s: %d completed exchange(s), archive has %d response/revisit record(s); outcomes %r'
                       % (uri, nok, len(resps), outcomes))
         if ex0['sent'] is not None and resps:
